@@ -13,6 +13,10 @@ mod util;
 
 mod corr_filters;
 mod corr_geom;
+mod corr_eval;
+mod corr_decision;
+mod e2e;
+mod pngparse;
 
 use std::io::Write;
 
@@ -94,6 +98,12 @@ fn main() {
         "corr-filters" => corr_filters::corr(&mut ctx),
         "oracle-c19" => corr_filters::oracle(&mut ctx),
         "corr-geom" => corr_geom::corr(&mut ctx),
+        "e2e" => e2e::oracle(&mut ctx),
+        "corr-eval" => corr_eval::corr(&mut ctx),
+        "oracle-determinism" => corr_eval::oracle(&mut ctx),
+        "outputs" => corr_eval::outputs(&mut ctx),
+        "corr-decision" => corr_decision::corr(&mut ctx),
+        "oracle-files" => corr_decision::oracle_files(&mut ctx),
         _ => {
             eprintln!("unknown stream {cmd}");
             std::process::exit(2);
